@@ -43,6 +43,17 @@ type c20Case struct {
 }
 
 func genC20(t *rapid.T) c20Case {
+	c := genC20Free(t)
+	if rapid.IntRange(0, 3).Draw(t, "template") == 0 {
+		// template "signers are set up under cross traffic": loud mode (in silent mode the buffer holds everything back until the
+		// node's own first message), two signing sessions, slow set-up, participant 1's key-generation frames replayed under the
+		// signing topics
+		c.Silent, c.Signs, c.Flood, c.SlowSetup, c.Early = false, 2, true, true, true
+	}
+	return c
+}
+
+func genC20Free(t *rapid.T) c20Case {
 	return c20Case{
 		N:         rapid.IntRange(3, 4).Draw(t, "n"),
 		Silent:    rapid.Bool().Draw(t, "silent"),
